@@ -12,6 +12,7 @@ var c09Constraints = map[System][]string{
 		">=d.d.d <d.d.d || >=d.d.d <d.d.d", "d.d.d || d.d.d", "<d.d.d || >d.d.d", "*", "^d.d", "~d", // 14-19
 		"d.d.d-l", ">=d.d", "<d.d", ">d.d.d-l || <d.d.d-l", // 20-23
 		"d.x || d.x", ">=d.d.d-l || ^d.d.d || d.d.d", "^d.d || ~d.x.x-l", "<d.d.d-0d", "d.d.d || d.d.d || d.d.d", // 24-28
+		"{(d.d.d:d.d.d]}", "{[d.d.d:d.d.d]}", "{[d.d.d:d.d.d)}", "{(d.d.d:d.d.d),[d.d.d:d.d.d]}", // spans written in the set syntax: open and closed ends 29-32
 	},
 	NPM: {
 		"d.d.d", ">=d.d.d", "<d.d.d", ">d.d.d", "<=d.d.d",
@@ -20,6 +21,7 @@ var c09Constraints = map[System][]string{
 		">=d.d.d <d.d.d || >=d.d.d <d.d.d", "d.d.d || d.d.d", "<d.d.d || >d.d.d", "*", "^d.d", "~d",
 		"d.d.d-l", ">=d.d", "<d.d", ">d.d.d-l || <d.d.d-l",
 		"d.x || d.x", ">=d.d.d-l || ^d.d.d || d.d.d", "^d.d || ~d.x.x-l", "<d.d.d-0d", "d.d.d || d.d.d || d.d.d",
+		"{(d.d.d:d.d.d]}", "{[d.d.d:d.d.d]}", "{[d.d.d:d.d.d)}", "{(d.d.d:d.d.d),[d.d.d:d.d.d]}", // spans written in the set syntax: open and closed ends
 	},
 	Cargo: {
 		"d.d.d", ">=d.d.d", "<d.d.d", ">d.d.d", "<=d.d.d",
@@ -28,9 +30,11 @@ var c09Constraints = map[System][]string{
 		"d.d", "d", "=d.d", "*", "^d.d", "~d",
 		"=d.d.d-l", ">=d.d", "<d.d", "^0.0.d",
 		"=d.d.d-0d", "<d.d.d-0d", // 24-25: an all-digit prerelease identifier with a leading zero is not a number here
+		"{(d.d.d:d.d.d]}", "{[d.d.d:d.d.d]}", "{[d.d.d:d.d.d)}", "{(d.d.d:d.d.d),[d.d.d:d.d.d]}", // spans written in the set syntax: open and closed ends 26-29
 	},
 	Go: {
 		"vd.d.d", "vd.d.d-l", "v0.d.d", "v1.d.d", "vd.d.d-00d",
+		"{(vd.d.d:vd.d.d]}", "{[vd.d.d:vd.d.d]}", "{[vd.d.d:vd.d.d)}", // 5-7
 	},
 }
 
@@ -61,6 +65,13 @@ func c09Instantiate(t string, tag string) string {
 }
 
 func c09Parse(sys System, s string) (Set, bool) {
+	if len(s) > 0 && s[0] == '{' {
+		c, err := sys.ParseSetConstraint(s)
+		if err != nil {
+			return Set{}, false
+		}
+		return c.set, true
+	}
 	c, err := sys.ParseConstraint(s)
 	if err != nil {
 		return Set{}, false
